@@ -82,6 +82,7 @@ func normalizeDocument(schema *Schema, doc *ast.Document, operationName string) 
 		schema:    schema,
 		synthArgs: map[string]interface{}{},
 		newVarDefs: nil,
+		taken:     variableNames(doc),
 	}
 
 	newOp := cloneOperation(op)
@@ -183,12 +184,90 @@ type normCtx struct {
 	synthArgs  map[string]interface{}
 	newVarDefs []*ast.VariableDefinition
 	shared     map[string]string
+	taken      map[string]bool
 }
 
 func (c *normCtx) nextName() string {
-	n := fmt.Sprintf("__pcv%d", c.counter)
-	c.counter++
-	return n
+	for {
+		n := fmt.Sprintf("__pcv%d", c.counter)
+		c.counter++
+		if !c.taken[n] {
+			return n
+		}
+	}
+}
+
+// variableNames collects every variable name the document defines or uses.
+func variableNames(doc *ast.Document) map[string]bool {
+	names := map[string]bool{}
+	var inValue func(v ast.Value)
+	inValue = func(v ast.Value) {
+		switch n := v.(type) {
+		case *ast.Variable:
+			if n != nil && n.Name != nil {
+				names[n.Name.Value] = true
+			}
+		case *ast.ListValue:
+			for _, x := range n.Values {
+				inValue(x)
+			}
+		case *ast.ObjectValue:
+			for _, f := range n.Fields {
+				if f != nil {
+					inValue(f.Value)
+				}
+			}
+		}
+	}
+	inArgs := func(args []*ast.Argument) {
+		for _, a := range args {
+			if a != nil {
+				inValue(a.Value)
+			}
+		}
+	}
+	inDirectives := func(ds []*ast.Directive) {
+		for _, d := range ds {
+			if d != nil {
+				inArgs(d.Arguments)
+			}
+		}
+	}
+	var inSel func(sel *ast.SelectionSet)
+	inSel = func(sel *ast.SelectionSet) {
+		if sel == nil {
+			return
+		}
+		for _, isel := range sel.Selections {
+			switch n := isel.(type) {
+			case *ast.Field:
+				inArgs(n.Arguments)
+				inDirectives(n.Directives)
+				inSel(n.SelectionSet)
+			case *ast.InlineFragment:
+				inDirectives(n.Directives)
+				inSel(n.SelectionSet)
+			case *ast.FragmentSpread:
+				inDirectives(n.Directives)
+			}
+		}
+	}
+	for _, def := range doc.Definitions {
+		switch d := def.(type) {
+		case *ast.OperationDefinition:
+			for _, vd := range d.VariableDefinitions {
+				if vd != nil && vd.Variable != nil && vd.Variable.Name != nil {
+					names[vd.Variable.Name.Value] = true
+				}
+			}
+			inDirectives(d.Directives)
+			inSel(d.SelectionSet)
+		case *ast.FragmentDefinition:
+			inDirectives(d.Directives)
+			inSel(d.SelectionSet)
+		}
+	}
+	return names
 }
 
 // normalizeSelectionSet walks selections under the given parent type.
